@@ -5,7 +5,56 @@ import random
 import fsharness as fh
 import fscommon as fc
 import handler_diff as hd
+import samples
 from framework import coq_property, build_model, build_cli, write_replay
+
+ALL_HANDLERS = ["ar", "jar", "javadoc", "gzip", "pyc", "pyc-zero-mtime", "zip"]
+
+
+def all_handler_runs(ctx, fails):
+    """Every handler (the opt-in one included), one dirty file each, single-link and hard-linked: --check under strace issues no
+    mutating call, leaves the tree (directory mtimes included) as it was, and reports what a real run on an identical tree reports."""
+    res = []
+    for sel in ALL_HANDLERS + [",".join(ALL_HANDLERS)]:
+        for linked in (False, True):
+            def build():
+                t = fh.Tree()
+                for n, (data, hs) in samples.per_handler().items():
+                    t.add_file("d/" + n, data, mtime_ns=1_650_000_000_000_000_000)
+                    if linked:
+                        t.link("d/" + n, "d/second-" + n)
+                t.add_file("d/p.py", b"x = 1\n", mtime_ns=1_650_000_000_000_000_000)         # sibling source of p.pyc
+                return t
+            label = "--check --handler %s%s" % (sel, " (hard-linked files)" if linked else "")
+            t = build()
+            try:
+                before = fh.snapshot(t.root, with_dir_mtime=True)
+                tr = os.path.join(ctx.tmp, "trace-all-%s-%d.txt" % (sel.replace(",", "_"), linked))
+                rc, out = fh.run_cli(["--check", "--handler", sel, t.path("d")], epoch=samples.EPOCH, strace_out=tr)
+                after = fh.snapshot(t.root, with_dir_mtime=True)
+                ops, _ = fh.parse_strace(tr, t.root)
+                s = fh.parse_summary(out)
+            finally:
+                t.remove()
+            t2 = build()
+            try:
+                rc2, out2 = fh.run_cli(["--handler", sel, t2.path("d")], epoch=samples.EPOCH)
+                s2 = fh.parse_summary(out2)
+            finally:
+                t2.remove()
+            d = fh.snap_equal(before, after)
+            if d:
+                fails.append((label, "check-modified-tree", "%s changed the tree: %s" % (label, "; ".join(d[:4]))))
+            mut = [k for k, r in fh.collapse(ops) if k in MUTATING]
+            if mut:
+                fails.append((label, "check-mutating-syscall", "%s issued mutating operations: %s" % (label, mut)))
+            if s != s2:
+                fails.append((label, "check-predicts-wrong", "%s reported %s but a real run reports %s" % (label, s, s2)))
+            want_fail = s2 is not None and (s2["errors"] > 0 or s2["unsupported"] > 0 or s2["modified"] > 0)
+            if (rc != 0) != want_fail:
+                fails.append((label, "check-verdict", "%s exit status %d but a real run reports %s" % (label, rc, s2)))
+            res.append({"case": label, "check_summary": s, "real_summary": s2, "exit": rc})
+    return res
 
 MUTATING = {"creat", "creat-nonexcl", "unlink", "writep", "fchmod", "chmod-path", "futimens", "utimens-path", "lchown", "chown-follow", "fchown",
             "rename", "openw", "openw-trunc", "truncate", "link", "linkat", "symlink", "symlinkat", "mkdir", "mkdirat", "rmdir", "mknod", "mknodat"}
@@ -83,6 +132,17 @@ def run(ctx):
                     fails.append((sc, "check-parallel-differs", "--check -j2 reported %s exit %d, real run reports %s" % (s3, rc3, s2)))
             finally:
                 t3.remove()
+        afails = []
+        ares = all_handler_runs(ctx, afails)
+        aseen = set()
+        for label, kind, msg in afails:
+            if kind in known or kind in aseen:
+                continue
+            aseen.add(kind)
+            d = write_replay(ctx, kind + ":all-handlers", {n: data for n, (data, hs) in samples.per_handler().items()},
+                             {"failure": msg, "kind": kind, "case": label, "epoch": samples.EPOCH,
+                              "how_to_replay": "put the files into a directory d (with a second hard link each if stated, plus p.py); SOURCE_DATE_EPOCH=<epoch> add-determinism <case> d"})
+            ctx.violations.append({"replay": d, "kind": kind, "msg": msg})
         ctx.oblige("correspondence[fs/check]: class and operation trace of %d --check runs = model (Helper.run_handler, mode Check)" % len(runs),
                    not mism, "; ".join("%s: %s" % (sc.label(), why) for sc, why in mism[:4]))
         seen = set()
@@ -98,15 +158,17 @@ def run(ctx):
             d = write_replay(ctx, kind, fc.replay_files(sc), fc.replay_info(sc, failure=msg, kind=kind))
             ctx.violations.append({"replay": d, "kind": kind, "msg": msg})
         ctx.coverage.update({
-            "evaluations": len(runs) * 3,
+            "evaluations": len(runs) * 3 + len(ares) * 2,
+            "all_handler_runs": ares[:: max(1, len(ares) // 4)],
             "distinct_nontrivial": len(set((r["sc"].handler, r["sc"].tag, r["sc"].nlink) for r in runs if fc.class_of_summary(r["summary"]) not in ("Noop", None))),
             "rule": "every content class (dirty, big, clean, malformed in several ways) of the modelled handlers x link count 1/2 x stale temp: --check under strace "
                     "(snapshot incl. directory mtimes before/after, no mutating syscall), a real run on an identical tree (counts and verdict must agree), and --check -j2; "
+                    "plus every one of the 7 handlers (and all together) on a tree with one dirty file per handler, single-link and hard-linked, --check under strace vs a real run; "
                     "non-trivial = --check reports something other than 'nothing to do'",
             "samples": [{"scenario": r["sc"].label(), "summary": r["summary"], "exit": r["rc"]} for r in runs[:3]],
-            "traces_validated_against_impl": len(runs), "correspondence_mismatches": len(mism), "oracle_failures": len(fails),
+            "traces_validated_against_impl": len(runs) + len(ares), "correspondence_mismatches": len(mism), "oracle_failures": len(fails) + len(afails),
         })
     finally:
         for r in runs:
             r["t"].remove()
-    ctx.assumptions += ["zip/jar under --check are covered when the zip model is in place (known finding F1 until then)"]
+    ctx.assumptions += ["the operation-trace correspondence with the model covers gzip and ar; the other handlers are judged by the strace/snapshot oracle"]
